@@ -535,6 +535,17 @@ func run(outdir string, scale int) {
 			emitDiff(tr, via(), d, withTime(grid[rnd.Intn(len(grid))], gridTimes[rnd.Intn(len(gridTimes))]))
 		}
 	}
+	// days that do not exist, systematically: 29 February of every non-leap century and
+	// of the years around the seed, day 30/31 of short months
+	for y := 1700; y < 3000; y += 100 {
+		for _, md := range [][2]int{{2, 29}, {2, 30}, {4, 31}, {2, 28}, {3, 1}} {
+			emitParse(tr, rnd.Intn(3), literalForms(dt{y, md[0], md[1], 0, 0, 0, 0})[0])
+		}
+		yy := y + 1 + (seed*7+y/100)%99
+		for _, md := range [][2]int{{2, 29}, {2, 30}, {6, 31}, {9, 31}, {11, 31}} {
+			emitParse(tr, rnd.Intn(3), literalForms(withTime(dt{yy, md[0], md[1], 0, 0, 0, 0}, randTime()))[rnd.Intn(4)])
+		}
+	}
 	tr.Reset()
 	// 2. seeded random dates and offsets
 	nr := 1500 * scale
